@@ -8,6 +8,8 @@
 package main
 
 import (
+	"bytes"
+	"compress/gzip"
 	"encoding/json"
 	"flag"
 	"fmt"
@@ -192,6 +194,52 @@ func abortedTransfer(env *e2elib.Env, tlsOn bool, backend, transport string, fai
 	}
 }
 
+// gzipEntry: the origin sends a pre-compressed representation (Content-Encoding: gzip with a Content-Length) to a client
+// that accepts gzip; it is stored. A client that does not accept gzip then asks for the URL. Whatever the proxy hands it
+// — the stored coding or a decoded body — coding label, length and bytes describe ONE body.
+func gzipEntry(env *e2elib.Env, tlsOn bool, backend, transport string, fail func(failure)) {
+	plain := mkBody(95, 1, 6000)
+	var zb bytes.Buffer
+	zw := gzip.NewWriter(&zb)
+	zw.Write(plain)
+	zw.Close()
+	gz := zb.Bytes()
+	env.Origin.SetHandler(func(req e2elib.OriginRequest, n int) e2elib.Answer {
+		return e2elib.NewAnswer(200, gz, "Cache-Control: max-age=60", `ETag: "r95v1-gzip"`, "Content-Type: application/x-r95v1", "Content-Encoding: gzip", "Vary: Accept-Encoding")
+	})
+	do := func(hs []string) (*e2elib.Response, error) {
+		if tlsOn {
+			c, _, err := env.DialTunnel(env.Origin.Addr, "127.0.0.1", 8*time.Second)
+			if err != nil {
+				return nil, err
+			}
+			defer c.Close()
+			c.Send(env.TunnelRequest("GET", "/gzip", hs, nil), 5*time.Second)
+			return c.Read("GET", 10*time.Second)
+		}
+		return env.DoPlain(env.PlainRequest("GET", "/gzip", hs, nil), "GET", 10*time.Second)
+	}
+	if r1, err := do([]string{"Accept-Encoding: gzip"}); err != nil || r1.Status != 200 {
+		return
+	}
+	for _, hs := range [][]string{nil, {"Accept-Encoding: identity"}, {"Accept-Encoding: gzip;q=0"}} {
+		r, err := do(hs)
+		if err != nil || r.Status != 200 {
+			continue
+		}
+		want := plain
+		if strings.Contains(strings.ToLower(r.Header.Get("Content-Encoding")), "gzip") {
+			want = gz
+		}
+		cl := r.Header.Get("Content-Length")
+		if r.BodyErr != "" || !bytes.Equal(r.Body, want) || (cl != "" && cl != fmt.Sprint(len(want))) {
+			fail(failure{"coding-length-body-mismatch", backend, transport, fmt.Sprintf("a stored gzip representation handed to a client sending %v: Content-Encoding %q, Content-Length %q, %d body bytes (read error %q) — they do not describe one body (compressed %d bytes, decoded %d bytes)", hs, r.Header.Get("Content-Encoding"), cl, len(r.Body), r.BodyErr, len(gz), len(plain)),
+				map[string]any{"x_cache": r.Header.Get("X-Cache"), "etag": r.Header.Get("ETag")}})
+			return
+		}
+	}
+}
+
 // replaceAtHandover: two clients share one fetch of an uncached resource (version 1). When the shared fetch has returned
 // and before either of them has picked up its own handle (yield point fetch.afterDo), the resource changes and a
 // non-coalesced request stores version 2 over the entry. Whatever version a client is then given, its validators,
@@ -337,6 +385,7 @@ func main() {
 			reval304Entity(env, tlsOn, backend, transport, fail)
 			abortedTransfer(env, tlsOn, backend, transport, fail)
 			replaceAtHandover(env, tlsOn, backend, transport, fail)
+			gzipEntry(env, tlsOn, backend, transport, fail)
 			env.Origin.SetHandler(mainHandler)
 			stop := time.Now().Add(dur)
 			var wg sync.WaitGroup
